@@ -370,3 +370,222 @@ Proof.
     pose proof (last_esc is_meas_stop eq_refl n 0 Sn NE') as L. rewrite Ee, last_cons in L.
     destruct (scan_to_loop_tok COMMA w' c0 l P' L) as [I1 _]. rewrite I1. cbn. exact W.
 Qed.
+
+(** * Witnesses against the unguarded statements (closed terms, evaluated) *)
+Definition no_floats : N -> bytes := fun _ => [].
+Definition pt (name : bytes) (tags : list (bytes * bytes)) : apoint :=
+  {| a_name := name; a_tags := tags; a_fields := [([102], VInt 1)]; a_time := Some 5%Z |}.
+(** the parser's view of the printed point *)
+Definition reparse (prec : precision) (dflt : Z) (pf : N -> bytes) (p : apoint) :=
+  let r := parse_points prec dflt (print_point pf prec p) in (map view (fst r), map fst (snd r)).
+(** what the property demands it to be *)
+Definition same_point (prec : precision) (dflt : Z) (p : apoint) (v : pview) : Prop :=
+  v_name v = a_name p /\ v_tags v = a_tags p /\ v_fields v = a_fields p /\
+  v_time v = expected_time prec dflt p.
+
+(* tag value  a\  : NewPoint accepts, String() = m,t=a\ f=1i 5 is rejected *)
+Definition w_bsl_tag := pt [109] [([116], [97; 92])].
+(* measurement  m\  *)
+Definition w_bsl_name := pt [109; 92] [].
+(* tag keys [a space] and [a dquote] are sorted, their escaped forms are not: the parser re-sorts *)
+Definition w_resort := pt [109] [([97; 32], [120]); ([97; 34], [121])].
+(* measurement #m : the printed line is a comment *)
+Definition w_comment := pt [35; 109] [].
+
+Lemma lp_witnesses :
+  new_point_ok w_bsl_tag = true /\ reparse P_ns 0 no_floats w_bsl_tag = ([], [print_point no_floats P_ns w_bsl_tag]) /\
+  new_point_ok w_bsl_name = true /\ reparse P_ns 0 no_floats w_bsl_name = ([], [print_point no_floats P_ns w_bsl_name]) /\
+  new_point_ok w_comment = true /\ reparse P_ns 0 no_floats w_comment = ([], []) /\
+  new_point_ok w_resort = true /\
+  map v_tags (fst (reparse P_ns 0 no_floats w_resort)) = [[([97; 34], [121]); ([97; 32], [120])]].
+Proof. vm_compute. repeat split. Qed.
+
+Lemma key_witness :
+  parse_key (make_key [109] [([116], [97; 92]); ([117], [118])])
+  = ([109], [([116], [97; 44; 117; 61; 118])]).     (* one tag  t = a,u=v  *)
+Proof. vm_compute. reflexivity. Qed.
+
+(** * Line protocol round trip, section by section *)
+
+(** ** The accessors on the printed key: Name() and Tags() *)
+Lemma unescape4_esc (S : N -> bool) : (forall c, S c = true -> is_esc_char c = true) ->
+  forall n, bsl_safe is_esc_char n = true -> unescape4 (esc_set S n) = n.
+Proof.
+  intros SS. induction n as [|c t IH]; intro H; [reflexivity|].
+  pose proof (bsl_safe_tail _ _ _ H) as Ht. specialize (IH Ht).
+  rewrite esc_set_cons. destruct (S c) eqn:Sc; cbn [app].
+  - cbn [unescape4]. rewrite N.eqb_refl, (SS _ Sc). f_equal. exact IH.
+  - destruct (c =? BSL) eqn:B; cbn [unescape4]; rewrite B; [|f_equal; exact IH].
+    cbn [bsl_safe] in H. rewrite B in H. destruct t as [|a t']; [discriminate|].
+    apply andb_true_iff in H as [Ha _]. apply negb_true_iff in Ha.
+    assert (Sa : S a = false) by (destruct (S a) eqn:E; [rewrite (SS _ E) in Ha; discriminate|reflexivity]).
+    rewrite esc_set_cons, Sa in *. cbn [app] in *. rewrite Ha. f_equal. exact IH.
+Qed.
+
+Lemma meas_stop_esc c : is_meas_stop c = true -> is_esc_char c = true.
+Proof. unfold is_meas_stop, is_esc_char. destruct (c =? COMMA), (c =? SP); cbn; auto; discriminate. Qed.
+Lemma tag_stop_not_bsl : is_tag_stop BSL = false. Proof. reflexivity. Qed.
+
+Lemma name_ok_key n : name_ok n = true -> key_name_ok n = true /\ bsl_safe is_esc_char n = true.
+Proof.
+  unfold name_ok, key_name_ok. intro H. apply andb_true_iff in H as [H S]. apply andb_true_iff in H as [H _].
+  split; [|exact S]. apply andb_true_iff. split; [destruct n; [discriminate|reflexivity]|].
+  eapply bsl_safe_mono; [|exact S]. apply meas_stop_esc.
+Qed.
+
+(** scanTo(key, 0, ',') on a printed key stops exactly after the escaped name *)
+Lemma scan_to_comma_make_key n ts : key_name_ok n = true -> key_tags_ok ts = true ->
+  scan_to COMMA (make_key n ts) = (escape_meas n, hash_key ts) /\
+  (hash_key ts = [] \/ exists l, hash_key ts = COMMA :: l).
+Proof.
+  intros Hn Ht. unfold make_key.
+  pose proof Hn as Hn'. unfold key_name_ok in Hn'. apply andb_true_iff in Hn' as [NE Sn].
+  rewrite (unescape_meas_safe n Sn).
+  assert (NE' : n <> []) by (destruct n; [discriminate|discriminate]).
+  assert (HK : hash_key ts = [] \/ exists l, hash_key ts = COMMA :: l).
+  { rewrite (hash_key_text ts Ht). destruct ts as [|[k v] r]; [left; reflexivity|right]. cbn. eauto. }
+  split; [|exact HK].
+  rewrite escape_meas_set.
+  destruct (esc_head_not_comma is_meas_stop n eq_refl NE') as [c0 [w' [Ee C0]]].
+  rewrite Ee. cbn [app]. rewrite (scan_to_first COMMA c0 _ C0).
+  pose proof (pclean_esc is_meas_stop eq_refl n 0) as P. rewrite Ee in P. cbn [pclean] in P.
+  apply andb_true_iff in P as [_ P].
+  assert (P' : pclean (N.eqb COMMA) c0 w' = true).
+  { eapply pclean_mono; [|exact P]. intros c Hc. apply N.eqb_eq in Hc. subst. reflexivity. }
+  pose proof (last_esc is_meas_stop eq_refl n 0 Sn NE') as L. rewrite Ee, last_cons in L.
+  destruct HK as [->|[l ->]].
+  - rewrite List.app_nil_r. destruct (scan_to_loop_tok COMMA w' c0 [] P' L) as [_ I2]. rewrite I2. reflexivity.
+  - destruct (scan_to_loop_tok COMMA w' c0 l P' L) as [I1 _]. rewrite I1. reflexivity.
+Qed.
+
+Lemma name_of_make_key n ts : name_ok n = true -> key_tags_ok ts = true -> name_of (make_key n ts) = n.
+Proof.
+  intros Hn Ht. destruct (name_ok_key n Hn) as [Hk Se].
+  unfold name_of. destruct (scan_to_comma_make_key n ts Hk Ht) as [-> _]. cbn [fst].
+  rewrite escape_meas_set. apply unescape4_esc; [apply meas_stop_esc|exact Se].
+Qed.
+
+Lemma walk_tags_make_key n ts : key_name_ok n = true -> key_tags_ok ts = true -> walk_tags (make_key n ts) = ts.
+Proof.
+  intros Hn Ht. unfold walk_tags.
+  destruct (scan_to_comma_make_key n ts Hn Ht) as [E HK]. rewrite E.
+  assert (NEk : make_key n ts <> []).
+  { unfold make_key. pose proof Hn as Hn'. unfold key_name_ok in Hn'. apply andb_true_iff in Hn' as [NE Sn].
+    rewrite (unescape_meas_safe n Sn), escape_meas_set.
+    assert (esc_set is_meas_stop n <> []) by (apply esc_set_nonempty; destruct n; [discriminate|discriminate]).
+    destruct (esc_set is_meas_stop n); [congruence|discriminate]. }
+  destruct (make_key n ts) as [|k0 kr]; [congruence|].
+  assert (NEn : escape_meas n <> []).
+  { rewrite escape_meas_set. apply esc_set_nonempty. unfold key_name_ok in Hn. apply andb_true_iff in Hn as [NE _].
+    destruct n; [discriminate|discriminate]. }
+  destruct (escape_meas n) as [|e0 er]; [congruence|].
+  pose proof (walk_tags_st_tags ts Ht) as W. rewrite <- (hash_key_text ts Ht) in W.
+  destruct (hash_key ts) as [|c l]; [symmetry; exact W|]. destruct W as [_ W]. exact W.
+Qed.
+
+(** ** scanKey on the printed key *)
+Fixpoint pushes (w : bytes) (r : tres) : tres :=
+  match w with [] => r | c :: t => push c (pushes t r) end.
+
+Lemma pushes_ok w s ss rest : pushes w (Ok (s :: ss, rest)) = Ok ((w ++ s) :: ss, rest).
+Proof. induction w as [|c t IH]; [reflexivity|]. cbn [pushes app]. rewrite IH. reflexivity. Qed.
+
+Lemma scan_tags_kloop : forall wk prev l,
+  pclean is_tag_stop prev wk = true -> (last wk prev =? BSL) = false ->
+  scan_tags KLoop prev (wk ++ EQ :: l) = pushes wk (push EQ (scan_tags VFirst EQ l)).
+Proof.
+  induction wk as [|c t IH]; intros prev l P L.
+  - cbn [last] in L. cbn [app scan_tags pushes]. rewrite L. cbn. reflexivity.
+  - cbn [pclean] in P. apply andb_true_iff in P as [P1 P2]. rewrite last_cons in L.
+    cbn [app scan_tags pushes]. rewrite <- (IH c l P2 L).
+    destruct (prev =? BSL); [cbn [negb andb]; rewrite !andb_false_r; reflexivity|].
+    rewrite orb_false_r in P1. apply negb_true_iff in P1. unfold is_tag_stop in P1.
+    apply orb_false_iff in P1 as [P1 C3]. apply orb_false_iff in P1 as [C1 C2].
+    rewrite C1, C2, C3. reflexivity.
+Qed.
+
+Lemma scan_tags_vloop : forall wv prev,
+  pclean is_tag_stop prev wv = true -> (last wv prev =? BSL) = false ->
+  (forall l, scan_tags VLoop prev (wv ++ COMMA :: l) = pushes wv (newseg (scan_tags KFirst COMMA l))) /\
+  (forall l, scan_tags VLoop prev (wv ++ SP :: l) = pushes wv (Ok ([[]], SP :: l))).
+Proof.
+  induction wv as [|c t IH]; intros prev P L.
+  - cbn [last] in L. split; intro l; cbn [app scan_tags pushes]; rewrite L; reflexivity.
+  - cbn [pclean] in P. apply andb_true_iff in P as [P1 P2]. rewrite last_cons in L.
+    destruct (IH c P2 L) as [I1 I2].
+    assert (X : (c =? EQ) && negb (prev =? BSL) = false /\ (c =? COMMA) && negb (prev =? BSL) = false /\
+                (c =? SP) && negb (prev =? BSL) = false).
+    { destruct (prev =? BSL); [rewrite !andb_false_r; auto|].
+      rewrite orb_false_r in P1. apply negb_true_iff in P1. unfold is_tag_stop in P1.
+      apply orb_false_iff in P1 as [P1 C3]. apply orb_false_iff in P1 as [C1 C2]. rewrite C1, C2, C3. auto. }
+    destruct X as [X1 [X2 X3]].
+    split; intro l; cbn [app scan_tags pushes]; rewrite X1, X2, X3; [rewrite I1|rewrite I2]; reflexivity.
+Qed.
+
+Definition seg_of (kv : bytes * bytes) : bytes := escape_tag (fst kv) ++ EQ :: escape_tag (snd kv).
+
+Lemma tag_text_seg kv : tag_text kv = COMMA :: seg_of kv.
+Proof. reflexivity. Qed.
+
+Lemma esc_tag_head s : s <> [] -> exists c0 w', escape_tag s = c0 :: w' /\ is_tag_stop c0 = false.
+Proof.
+  intro NE. destruct s as [|c t]; [congruence|]. rewrite escape_tag_set, esc_set_cons.
+  destruct (is_tag_stop c) eqn:E; cbn; eexists _, _; (split; [reflexivity|]); [reflexivity|exact E].
+Qed.
+
+Definition tagpair_ok (kv : bytes * bytes) : bool :=
+  nonempty (fst kv) && nonempty (snd kv) && bsl_safe is_tag_stop (fst kv) && bsl_safe is_tag_stop (snd kv).
+
+(** one tag "k=v" starting in state KFirst, followed by [l] *)
+Lemma scan_tags_one kv prev : tagpair_ok kv = true ->
+  (forall l, scan_tags KFirst prev (seg_of kv ++ COMMA :: l) = pushes (seg_of kv) (newseg (scan_tags KFirst COMMA l))) /\
+  (forall l, scan_tags KFirst prev (seg_of kv ++ SP :: l) = pushes (seg_of kv) (Ok ([[]], SP :: l))).
+Proof.
+  destruct kv as [k v]. unfold tagpair_ok, seg_of. cbn [fst snd]. intro H.
+  apply andb_true_iff in H as [H Sv]. apply andb_true_iff in H as [H Sk]. apply andb_true_iff in H as [NEk NEv].
+  assert (NEk' : k <> []) by (destruct k; [discriminate|discriminate]).
+  assert (NEv' : v <> []) by (destruct v; [discriminate|discriminate]).
+  destruct (esc_tag_head k NEk') as [k0 [kw [Ek Ck]]]. destruct (esc_tag_head v NEv') as [v0 [vw [Ev Cv]]].
+  pose proof (pclean_esc is_tag_stop eq_refl k 0) as Pk. rewrite <- escape_tag_set, Ek in Pk.
+  cbn [pclean] in Pk. apply andb_true_iff in Pk as [_ Pk].
+  pose proof (last_esc is_tag_stop eq_refl k 0 Sk NEk') as Lk. rewrite <- escape_tag_set, Ek, last_cons in Lk.
+  pose proof (pclean_esc is_tag_stop eq_refl v 0) as Pv. rewrite <- escape_tag_set, Ev in Pv.
+  cbn [pclean] in Pv. apply andb_true_iff in Pv as [_ Pv].
+  pose proof (last_esc is_tag_stop eq_refl v 0 Sv NEv') as Lv. rewrite <- escape_tag_set, Ev, last_cons in Lv.
+  destruct (scan_tags_vloop vw v0 Pv Lv) as [V1 V2].
+  unfold is_tag_stop in Ck, Cv. apply orb_false_iff in Ck as [Ck Ck3]. apply orb_false_iff in Ck as [Ck1 Ck2].
+  apply orb_false_iff in Cv as [Cv Cv3]. apply orb_false_iff in Cv as [Cv1 Cv2].
+  rewrite Ek, Ev.
+  split; intro l; cbn [app scan_tags pushes]; rewrite Ck1, Ck2, Ck3; cbn [orb];
+    rewrite <- List.app_assoc; cbn [app]; rewrite (scan_tags_kloop kw k0 _ Pk Lk);
+    cbn [scan_tags]; rewrite Cv1, Cv2; cbn [orb]; [rewrite V1|rewrite V2];
+    rewrite <- !List.app_assoc; cbn [app];
+    (* pushes distributes over the concatenation *)
+    clear; induction kw as [|x kw IH]; cbn [app pushes]; [reflexivity|rewrite IH; reflexivity].
+Qed.
+
+Fixpoint tags_body (ts : list (bytes * bytes)) : bytes :=   (* k1=v1,k2=v2 *)
+  match ts with
+  | [] => []
+  | [kv] => seg_of kv
+  | kv :: r => seg_of kv ++ COMMA :: tags_body r
+  end.
+
+Lemma flat_map_tag_text ts : ts <> [] -> flat_map tag_text ts = COMMA :: tags_body ts.
+Proof.
+  induction ts as [|kv r IH]; [congruence|]. intros _. cbn [flat_map]. rewrite tag_text_seg.
+  destruct r as [|kv' r']; [cbn; rewrite List.app_nil_r; reflexivity|].
+  rewrite IH; [|discriminate]. cbn [app tags_body]. rewrite <- List.app_assoc. reflexivity.
+Qed.
+
+Lemma scan_tags_all ts : ts <> [] -> forallb tagpair_ok ts = true ->
+  forall prev rest, scan_tags KFirst prev (tags_body ts ++ SP :: rest) = Ok (map seg_of ts, SP :: rest).
+Proof.
+  induction ts as [|kv r IH]; [congruence|]. intros _ H prev rest. cbn [forallb] in H.
+  apply andb_true_iff in H as [H1 H2]. destruct (scan_tags_one kv prev H1) as [S1 S2].
+  destruct r as [|kv' r'].
+  - cbn [tags_body map]. rewrite S2, pushes_ok, List.app_nil_r. reflexivity.
+  - change (tags_body (kv :: kv' :: r')) with (seg_of kv ++ COMMA :: tags_body (kv' :: r')).
+    rewrite <- List.app_assoc. cbn [app]. rewrite S1, (IH ltac:(discriminate) H2 COMMA rest).
+    cbn [newseg]. rewrite pushes_ok, List.app_nil_r. reflexivity.
+Qed.
